@@ -91,7 +91,7 @@ var c07FactorNames = [c07NF]string{"src", "transport", "gen", "v4sup", "v6sup", 
 var c07Levels = [c07NF][]string{
 	fSrc:           {"API", "Detector", "DetectorPrescan", "BidirectionalAPI", "DNS", "BidirectionalDNS", "absent"},
 	fTransport:     {"Min", "Obfs4", "DTLS(not-enabled)", "enum77(unknown)", "absent"},
-	fGen:           {"11", "12", "4242(unknown)", "absent", "13(v4-only-subnets)"},
+	fGen:           {"11", "12", "4242(unknown)", "absent", "13(v4-only-subnets)", "14(v6-only-subnets)"},
 	fV4Sup:         {"true", "false", "absent"},
 	fV6Sup:         {"true", "false", "absent"},
 	fRegistrant:    {"v4-mapped16", "v4-4B", "v6", "absent", "len5", "len0"},
@@ -186,6 +186,12 @@ const c07PhantomToml = `[Networks]
             Weight = 1
             RandomizeDstPort = true
             Subnets = ["100.64.0.0/10"]
+    [Networks.14]
+        Generation = 14
+        [[Networks.14.WeightedSubnets]]
+            Weight = 1
+            RandomizeDstPort = true
+            Subnets = ["2001:db8:a::/48"]
 `
 
 var (
@@ -445,6 +451,10 @@ func (h *c07H) station(idx int) *RegistrationManager {
 		conf.CovertAllowlistSubnets = c07CovertAllowSubnets
 	}
 	conf.ParseBlocklists()
+	if len(conf.phantomBlocklist) != len(conf.PhantomBlocklist) || len(conf.covertBlocklistSubnets) != len(conf.CovertBlocklistSubnets) ||
+		len(conf.covertAllowlistSubnets) != len(conf.CovertAllowlistSubnets) || len(conf.covertBlocklistDomains) != len(conf.CovertBlocklistDomains) {
+		h.t.Fatal("infrastructure: the station did not take over the configured lists")
+	}
 	rm := NewRegistrationManager(conf)
 	if rm == nil {
 		h.t.Fatal("infrastructure: NewRegistrationManager returned nil")
@@ -563,6 +573,8 @@ func (h *c07H) build(v c07Vec) *c07Case {
 			p.DecoyListGeneration = proto.Uint32(4242)
 		case 4:
 			p.DecoyListGeneration = proto.Uint32(13)
+		case 5:
+			p.DecoyListGeneration = proto.Uint32(14)
 		}
 		switch v[fV4Sup] {
 		case 0:
@@ -716,8 +728,13 @@ func c07Reference(v c07Vec) c07Ref {
 		case !payload:
 		case v[fGen] == 0 || v[fGen] == 1:
 		case v[fGen] == 4:
+			// a known generation that offers no phantom of this family: the statement does not say what becomes of that half
 			if f == 1 {
 				fr.unspec = append(fr.unspec, "generation-without-v6-subnets")
+			}
+		case v[fGen] == 5:
+			if f == 0 {
+				fr.unspec = append(fr.unspec, "generation-without-v4-subnets")
 			}
 		default:
 			fr.fail = append(fr.fail, "generation")
@@ -1492,8 +1509,8 @@ func TestVerifC07Pipeline(t *testing.T) {
 	h := c07Setup(t, "pipeline")
 	defer h.close()
 	rng := kit.Rand("c07/pipeline")
-	batches := kit.Tier(4, 40)
-	per := kit.Tier(250, 1000)
+	batches := kit.Tier(8, 100)
+	per := kit.Tier(500, 2000)
 	h.live.byAddr = map[string]c07Verdict{}
 	for b := 0; b < batches; b++ {
 		// one station configuration per batch
@@ -1560,14 +1577,16 @@ func TestVerifC07Pipeline(t *testing.T) {
 			if len(rm.ingestChan) == 0 {
 				gs := kit.Stacks()
 				idle := 0
-				for _, g := range kit.InFunc(gs, "lib.(*RegistrationManager).startIngestThread") {
-					if g.State == "select" && len(g.Frames) > 0 && !strings.Contains(strings.Join(g.Frames, " "), "ingestRegistration") && !strings.Contains(strings.Join(g.Frames, " "), "parseRegMessage") {
+				for _, g := range gs {
+					// a parked worker: blocked in the select of startIngestThread itself (runtime frames are elided, so it is the top frame)
+					if g.State == "select" && len(g.Frames) > 0 && strings.HasSuffix(g.Frames[0], "lib.(*RegistrationManager).startIngestThread") {
 						idle++
 					}
 				}
 				distr := false
-				for _, g := range kit.InFunc(gs, "lib.(*RegistrationManager).HandleRegUpdates") {
-					if g.State == "chan receive" {
+				for _, g := range gs {
+					// the distributor waits for input: "chan receive" (range over the channel) or "select" (input or stop)
+					if len(g.Frames) > 0 && strings.HasSuffix(g.Frames[0], "lib.(*RegistrationManager).HandleRegUpdates") && (g.State == "chan receive" || g.State == "select") {
 						distr = true
 					}
 				}
